@@ -7,7 +7,7 @@ RULE = ("cases = histories (3-10 steps, <=5 live handles) over a pool of automat
         "new-empty + load-into (with a copy alive), copy, SetStateFinal, Union, UnionDisjointStates (disjoint numbers or table-sharing copies), "
         "Intersection, RemoveUnreachableStates, RemoveUselessStates, destroy; after EVERY step EVERY live handle is dumped (and, bottom-up, its "
         "GetTopDownAut()). corpus (D11/D12 shapes) + targeted (table-sharing copies differing in final states as union/intersection operands; load into a "
-        "shared table) + random histories over automata with <=3 states. Non-trivial = history with at least one binary operation whose result is non-empty "
+        "shared table; intersections of quotient pairs and of richer automata in both operand orders) + random histories over automata with <=3 states. Non-trivial = history with at least one binary operation whose result is non-empty "
         "and at least 3 live handles at the end; distinct by the history text")
 EXHAUSTIVE_SLICES = "none (histories are sampled)"
 TRUSTED_BASE = [
@@ -68,10 +68,22 @@ def history(rng, enc, targeted):
             for x in list(info):
                 if info[x] == ("copy", k): info[x] = "derived"
     return "%s %d ; %s" % (enc, len(steps), " ; ".join(steps))
+def isect_history(rng, enc):
+    """targeted at the product constructions: B random, A := image of B under a merging map (repeated states in A's tuples where B has
+    distinct ones; L(B) <= L(A), so both intersections must denote L(B)), or two richer random automata; both operand orders, then trimming"""
+    if rng.random() < 0.7:
+        a, b = gen.quotient_pair(rng, 4, 8, sigma=SIG)
+    else:
+        a = gen.rand_ta(rng, rng.randint(2, 4), rng.randint(3, 8), sigma=SIG, pfinal=0.5, leafbias=0.35)
+        b = gen.rand_ta(rng, rng.randint(2, 4), rng.randint(3, 8), sigma=SIG, pfinal=0.5, leafbias=0.35)
+    if rng.random() < 0.5: b = b.rename({q: q + 10 for q in b.states()})
+    steps = ["L 0 " + a.fmt(), "L 1 " + b.fmt(), "X 2 0 1", "X 3 1 0", "%s 4 2" % rng.choice(["UL", "UR"]), "U 5 2 3"]
+    return "%s %d ; %s" % (enc, len(steps), " ; ".join(steps))
 def cases(rng, tier):
     cs = [(l, "corpus") for l in CORPUS]
     nt, nr = (250, 500) if tier == "quick" else (3000, 8000)
     for enc in ("bu", "td"):
+        for _ in range(nt * 2): cs.append((isect_history(rng, enc), "targeted_isect"))
         for _ in range(nt): cs.append((history(rng, enc, True), "targeted"))
         for _ in range(nr): cs.append((history(rng, enc, False), "random"))
     return cs
